@@ -545,6 +545,38 @@ pub fn cycles(tier: Tier) -> Vec<C18Case> {
 	out
 }
 
+/// the stream is dropped while the request queue is full; after the fallback unsubscribe and its ack nothing may remain
+pub struct FullQueueTables;
+
+impl SubCheck for FullQueueTables {
+	type Case = crate::props::c05::FullQueueCase;
+	fn name(&self) -> &'static str {
+		"tables-after-drop-with-full-queue"
+	}
+	fn cases(&self, tier: Tier) -> u32 {
+		tier.pick(2_000, 40_000)
+	}
+	fn strategy(&self, tier: Tier) -> BoxedStrategy<Self::Case> {
+		crate::props::c05::DroppedWithFullQueue.strategy(tier)
+	}
+	fn run(&self, case: &Self::Case, obs: &mut Obs) {
+		let rt = rt();
+		rt.block_on(async {
+			let mut fails = vec![];
+			let (n, sizes, lost) = crate::props::c05::full_queue_scenario(case, &mut fails).await;
+			if lost {
+				obs.nontrivial();
+			}
+			if let Some(sz) = sizes {
+				obs.check(sz == [0, 0, 0, 0], "c18/tables-not-empty-after-dropped-stream", || format!("tables {sz:?} after the dropped subscription was finished ({n} unsubscribe requests, drop notice lost: {lost}); case={case:?}"));
+			}
+			for (s, d) in fails {
+				obs.fail(s, format!("{d}; case={case:?}"));
+			}
+		});
+	}
+}
+
 pub fn check(ctx: &mut Ctx) {
 	ctx.rule = "histories of {call, subscribe answered accept(num/str id) / refuse / malformed id / duplicate subscription id, subscribe future dropped before the answer, unsubscribe, drop, server-side close, lag-close, batch, notification handler register / drop / lag} \
 		with the acknowledgements (incl. unsubscribe acks) delivered in a generated order, then everything outstanding is finished; plus 200 (quick) / 1000 repetitions of each single cycle. \
@@ -555,9 +587,10 @@ pub fn check(ctx: &mut Ctx) {
 	let cyc = cycles(ctx.tier);
 	ctx.run_cases_parallel(&Tables, cyc, 16);
 	ctx.run_sub(&Tables);
+	ctx.run_sub(&FullQueueTables);
 }
 
 pub fn replay(file: &serde_json::Value) -> Option<i32> {
-	replay_with(&Tables, file, "C18")
+	replay_with(&Tables, file, "C18").or_else(|| replay_with(&FullQueueTables, file, "C18"))
 }
 
